@@ -24,8 +24,12 @@ const EXCHANGES: [ExchangeId; 3] = [ExchangeId::BinanceSpot, ExchangeId::Kraken,
 const PAIRS: [(&str, &str); 4] = [("btc", "usdt"), ("eth", "usdt"), ("eth", "btc"), ("sol", "usd")];
 const L_ONE_INDEX: &str = "C04.bounded.repeated_definition_has_one_index";
 
+/// user-supplied internal names that do NOT carry the exchange ("btc_usdt" for the listing on every exchange): the listings are different
+/// instruments all the same - each has its own index and translates to and from its own exchange's name
+static PLAIN_NAMES: std::sync::atomic::AtomicBool = std::sync::atomic::AtomicBool::new(false);
+fn plain() -> bool { PLAIN_NAMES.load(std::sync::atomic::Ordering::Relaxed) }
 fn instrument(ex: ExchangeId, base: &str, quote: &str) -> Instrument<ExchangeId, Asset> {
-    Instrument::spot(ex, format!("{}-{base}_{quote}", ex.as_str()), format!("{}{}", base.to_uppercase(), quote.to_uppercase()),
+    Instrument::spot(ex, if plain() { format!("{base}_{quote}") } else { format!("{}-{base}_{quote}", ex.as_str()) }, format!("{}{}", base.to_uppercase(), quote.to_uppercase()),
                      Underlying::new(Asset::from(base), Asset::from(quote)), None)
 }
 
@@ -54,7 +58,7 @@ impl Checker {
     fn collection(&mut self, lists: &[Vec<Def>], entry: Entry) {
         let indexed = build(lists, entry);
         let defs: Vec<Def> = lists.iter().flatten().copied().collect();
-        let cfg = format!("{}; instruments (definition order{}): {}",
+        let cfg = format!("{}{}; instruments (definition order{}): {}", if plain() { "internal names WITHOUT the exchange (shared by the listings of a pair on different exchanges); " } else { "" },
             match entry { Entry::New => "IndexedInstruments::new(lists chained)", Entry::Builder => "IndexedInstruments::builder(), add_instrument per definition, build()" },
             if lists.len() > 1 { ", lists merged in this order" } else { "" },
             lists.iter().map(|l| format!("{:?}", l.iter().map(show).collect::<Vec<_>>())).collect::<Vec<_>>().join(" ++ "));
@@ -174,6 +178,10 @@ pub fn run(seed: u64, thorough: bool) -> u64 {
             if len <= 3 {
                 ck.collection(&lists, Entry::New);
                 ck.collection(&lists, Entry::Builder);
+                PLAIN_NAMES.store(true, std::sync::atomic::Ordering::Relaxed);
+                ck.collection(&lists, Entry::New);
+                ck.collection(&lists, Entry::Builder);
+                PLAIN_NAMES.store(false, std::sync::atomic::Ordering::Relaxed);
             } else {
                 ck.collection(&lists, if (code / choices.len() + code) % 2 == 0 { Entry::New } else { Entry::Builder });
             }
